@@ -1,5 +1,5 @@
 (* C11 — XOR-obfuscated block files yield the same result as plaintext ones. Pinned statements only: each theorem is closed by `exact` of a lemma proved in theories/. *)
-From RBP Require Import Bytes Hashes Wire Block BlockP Render Index IndexP Model ModelP StoreP CsvP.
+From RBP Require Import Bytes Hashes Wire Block BlockP Render Index IndexP Model ModelP StoreP CsvP XorP.
 From RBP Require Drive Merkle Utxo Stats OutProto Reader Published Misc.
 
 Theorem C11_xor_reader_refines :
@@ -26,9 +26,34 @@ Theorem C11_run_same :
   forall (c : coin) (k : list N) (files : list blkfile) (idx : list (bytes * bytes)) (o : opts), k <> [] -> run_case c {| d_files := map (obfuscate_file k) files; d_index := idx; d_xor := Some k |} o = run_case c {| d_files := files; d_index := idx; d_xor := None |} o.
 Proof. exact run_case_obfuscated. Qed.
 
+Theorem C11_byte_at_offset :
+  forall (k : list N) (p : N) (l : list N) (i : nat), (i < length l)%nat -> nth i (Reader.xor_from k p l) 0 = N.lxor (nth i l 0) (Reader.kbyte k (p + N.of_nat i)).
+Proof. exact xor_from_nth. Qed.
+
+Theorem C11_key_repeats_from_offset_0 :
+  forall (k : list N) (p : N) (l : list N), k <> [] -> Reader.xor_from k (p + N.of_nat (length k)) l = Reader.xor_from k p l.
+Proof. exact xor_from_period. Qed.
+
+Theorem C11_all_zero_key_is_identity :
+  forall (k : list N) (p : N) (l : list N), Forall (fun b : N => b = 0) k -> Reader.xor_from k p l = l.
+Proof. exact xor_from_zero_key. Qed.
+
+Theorem C11_zero_key_byte_leaves_plaintext :
+  forall (k : list N) (p : N) (l : list N) (i : nat), (i < length l)%nat -> Reader.kbyte k (p + N.of_nat i) = 0 -> nth i (Reader.xor_from k p l) 0 = nth i l 0.
+Proof. exact xor_from_zero_byte. Qed.
+
+Theorem C11_zero_prefix :
+  forall (k : list N) (z : nat) (l : list N), (z <= length k)%nat -> Forall (fun b : N => b = 0) (firstn z k) -> (length l <= z)%nat -> Reader.xor_from k 0 l = l.
+Proof. exact xor_from_zero_prefix. Qed.
+
 Print Assumptions C11_xor_reader_refines.
 Print Assumptions C11_unxor_involutive.
 Print Assumptions C11_plain_view_same.
 Print Assumptions C11_fetch_same.
 Print Assumptions C11_get_block_same.
 Print Assumptions C11_run_same.
+Print Assumptions C11_byte_at_offset.
+Print Assumptions C11_key_repeats_from_offset_0.
+Print Assumptions C11_all_zero_key_is_identity.
+Print Assumptions C11_zero_key_byte_leaves_plaintext.
+Print Assumptions C11_zero_prefix.
